@@ -12,6 +12,8 @@ Theorem C17_not_found :
     find rx rx_names c ty text = FNone <-> forall e g, In e c -> ~ matching rx ty text e g.
 Proof. exact find_none. Qed.
 
+(* [definitional] unfolds the model's own definition: a pinned reading of the model (it breaks when the model is edited),
+   not evidence for the property by itself — the model is tied to the code by the correspondence check *)
 Theorem C17_unique_match :
   forall rx rx_names c ty text e g,
     cands rx c ty text = [(e, g)] ->
